@@ -51,6 +51,7 @@ structure SolSuf where
 
 structure Case where
   id : String
+  session : Nat
   text : Bool
   flags : Nat
   m : MatrixModel
@@ -63,6 +64,8 @@ def pCase : P Case := do
   let c ← tok
   if c != "C" then throw "not a case"
   let id ← tok
+  let session ← pNat
+  let _mode ← pNat      -- LoadModel+ReadSolution / Solve with a fake solver / the same with an automatic stub: same observations
   let api ← pNat
   let text ← pNat
   let _comments ← pNat
@@ -118,7 +121,7 @@ def pCase : P Case := do
       Q := { start := qstart, index := qidx, value := qval }, m := mm, rlb := rlb, rub := rub,
       A := { start := astart, index := aidx, value := aval }, ws := ws, dws := dws, sufs := sufs,
       colNames := cn, rowNames := rn, objName := objName }
-  pure { id := id, text := text != 0, flags := flags, m := model, solx := solx, soly := soly, code := code, ssuf := ssuf }
+  pure { id := id, session := session, text := text != 0, flags := flags, m := model, solx := solx, soly := soly, code := code, ssuf := ssuf }
 
 /-- numbers are printed scaled by 1024 -/
 def showRat (q : Rat) : String :=
@@ -147,12 +150,15 @@ def showName (s : String) : String := if s.isEmpty then "~" else s
 def sufSize (m : MatrixModel) (kind : Nat) : Nat :=
   match kind % 4 with | 0 => m.n | 1 => m.m | _ => 1
 
-def runCase (c : Case) : List String := Id.run do
+/-- `pdOld`: the `PreprocessData` state of the case's session before this model is loaded -/
+def runCase (c : Case) (pdOld : Pd) (errOld : Bool) : List String × Pd × Bool := Id.run do
   let m := c.m
   let id := c.id
+  let pd := exportPrepro pdOld m
   let mut out : Array String := #[]
-  out := out.push (s!"{id} perm" ++ String.join ((List.range m.n).map (fun j => s!" {vperm m j}")))
-  out := out.push (s!"{id} inv" ++ String.join ((List.range m.n).map (fun i => s!" {vpermInv m i}")))
+  out := out.push (s!"{id} perm" ++ String.join (pd.vperm.map (fun v => s!" {v}")))
+  out := out.push (s!"{id} inv" ++ String.join (pd.vpermInv.map (fun v => s!" {v}")))
+  out := out.push s!"{id} getters 1"
   out := out.push s!"{id} load 1 1"
   let h := header m c.text c.flags
   out := out.push (s!"{id} hdr fmt {if h.text then "t" else "b"} flags {h.flags} nvars {h.nvars} ncons {h.ncons} nobjs {h.nobjs}" ++
@@ -188,32 +194,47 @@ def runCase (c : Case) : List String := Id.run do
   | none => out := out.push s!"{id} rowfile 0"
   | some l => out := out.push (s!"{id} rowfile 1" ++ String.join (l.map (fun s => " " ++ showName s)))
   out := out.push s!"{id} sol code {c.code}"
-  let x := onPrimal m c.solx
+  let x := onPrimalPd pd m.n c.solx
   out := out.push (s!"{id} sol x" ++ String.join (x.map (fun v => " " ++ showRat v)))
   out := out.push (s!"{id} sol y" ++ String.join (c.soly.map (fun v => " " ++ showRat v)))
-  for s in c.ssuf do
-    out := out.push (s!"{id} sol suf {s.name} {s.kind} {sufSize m s.kind}" ++ showDenseNZ (onSuffix m s.kind s.entries))
+  for s in readSolSuffixes pd m.n m.m (c.ssuf.map (fun s => (s.name, s.kind, s.entries))) do
+    out := out.push (s!"{id} sol suf {s.1} {s.2.1} {sufSize m s.2.1}" ++ showDenseNZ s.2.2)
   if x.length == m.n then
     match computeObjValue m (fun j => x.getD j 0) with
     | some v => out := out.push s!"{id} sol obj {showRat v}"
     | none => out := out.push s!"{id} sol obj crash"
+  let err := stickyErr errOld (solReadError m.n m.m (c.ssuf.map (fun s => (s.name, s.kind, s.entries))))
+  out := out.push s!"{id} sol err {if err then 1 else 0}"
   if m.api == 0 then out := out.push s!"{id} samefile 1"
   out := out.push s!"{id} end"
-  pure out.toList
+  pure (out.toList, pd, err)
 
-partial def loop (h : IO.FS.Stream) (o : IO.FS.Stream) : IO Unit := do
+/-- sessions: association list session id -> stored `PreprocessData` (session 0 is always fresh) -/
+partial def loop (h : IO.FS.Stream) (o : IO.FS.Stream) (st : List (Nat × Pd)) (errs : List ((Nat × Nat) × Bool) := []) : IO Unit := do
   let line ← h.getLine
   if line.isEmpty then return
   let l := line.trimAscii.toString
-  if l.isEmpty || l.startsWith "#" then loop h o
+  if l.isEmpty || l.startsWith "#" then loop h o st errs
   else
     let toks := (l.splitOn " ").filter (fun t => !t.isEmpty)
+    if toks == ["P"] then
+      for s in probeLines do o.putStrLn s
+      loop h o st errs
+    else
     match (pCase.run toks) with
-    | .ok (c, _) => for s in runCase c do o.putStrLn s
-    | .error e => o.putStrLn s!"bad-op {e}"
-    loop h o
+    | .ok (c, _) =>
+      let pdOld : Pd := if c.session == 0 then ⟨[], []⟩ else ((st.lookup c.session).getD ⟨[], []⟩)
+      -- the error flag lives in the solver object of the session: one C++ NLSolver and one C solver per session
+      let errOld : Bool := if c.session == 0 then false else ((errs.lookup (c.session, c.m.api)).getD false)
+      let (lines, pd, err) := runCase c pdOld errOld
+      for s in lines do o.putStrLn s
+      if c.session == 0 then loop h o st errs
+      else loop h o ((c.session, pd) :: st) (((c.session, c.m.api), err) :: errs)
+    | .error e =>
+      o.putStrLn s!"bad-op {e}"
+      loop h o st errs
 
 def main : IO Unit := do
   let i ← IO.getStdin
   let o ← IO.getStdout
-  loop i o
+  loop i o []
